@@ -1,9 +1,10 @@
 (** C19 -- finite-difference derivatives are exact on low-degree polynomials and never
     leave the stated bounds.  All statements are about the tables and the row-selection
-    rule GENERATED from /repo/src/WallGo/helpers.py on this run (module GenC19.Tables). *)
+    rule GENERATED from /repo/src/WallGo/helpers.py on this run (module GenC19.Tables) and
+    the call-site facts GENERATED from effectivePotential.py (module GenC19.PotFacts). *)
 From Coq Require Import Reals List ZArith QArith Qabs Qreals Lqa Lia Bool.
 From WG Require Import Lib.Stencil.
-From GenC19 Require Import Tables.
+From GenC19 Require Import Tables PotFacts.
 Import ListNotations.
 
 (** ** 1. every row of every table is exact up to degree (#points - 1) *)
@@ -178,36 +179,359 @@ Example stays_in_bounds_nonvacuous :
   0 < (1#4) /\ in_bounds (Fin 0) (Fin 1) 0 /\ wide (Fin 0) (Fin 1) 4 (1#4).
 Proof. unfold in_bounds, wide; repeat split; try lra; discriminate. Qed.
 
-(** the selected row is also a row of the coefficient table (same index), so the value
-    returned is the stencil of section 1 *)
-Theorem temperature_bound :
-  (* bounds = (0, +inf), the way derivT calls it: never evaluates at T < 0 *)
-  forall T dT, 0 <= T -> 0 < dT ->
-    match eval_points offset FIRST_DERIV_POS_4 4 T dT (Fin 0) PosInf with
-    | Some pts => Forall (fun t => 0 <= t) pts
+(** ** 5b. which row is used, as a function of the distances to the bounds (interior: the
+       central row 0; less than one step from the lower/upper bound: the fully one-sided row
+       +1/-1 (order 2) or +2/-2 (order 4); between one and two steps (order 4): +1/-1).
+       Negative rows index the tables from the end (pyindex). *)
+Ltac rowsel_tac :=
+  intros x dx lb ub Hdx [Hl Hu] Hw;
+  unfold offset, gt_b, lt_b, wide, in_bounds in *;
+  destruct lb as [| |l]; destruct ub as [| |u]; try contradiction;
+  cmp_cases; cbn [b2z negb]; try reflexivity; exfalso; lra.
+
+Theorem row_selection :
+  (forall x dx lb ub, 0 < dx -> in_bounds lb ub x -> wide lb ub 2 dx ->
+     offset 2 x dx lb ub =
+     (if lt_b (x - dx) lb then 1 else if gt_b (x + dx) ub then -1 else 0)%Z) /\
+  (forall x dx lb ub, 0 < dx -> in_bounds lb ub x -> wide lb ub 4 dx ->
+     offset 4 x dx lb ub =
+     (if lt_b (x - dx) lb then 2 else if lt_b (x - 2 * dx) lb then 1 else
+      if gt_b (x + dx) ub then -2 else if gt_b (x + 2 * dx) ub then -1 else 0)%Z).
+Proof. split; rowsel_tac. Qed.
+Print Assumptions row_selection.
+
+(** ** 6. COMPOSITION: the value [derivative] returns.  [derivQ offset coefT posT n order f x
+       dx lb ub] is the executable model of the whole function (row selection by the generated
+       [offset], negative indexing, coefficients / dx^n, weighted sum); it is compared with
+       the implementation by vm_compute on every run.  For EVERY x, every dx <> 0 (either
+       sign, any size), EVERY pair of bounds -- no width, no in-bounds hypothesis -- and every
+       polynomial with at most #points coefficients (degree <= #points - 1) it returns the
+       exact derivative: whichever row the rule picks is a row of the table, and all rows are
+       exact.  In particular the value stays exact in intervals narrower than the stencil
+       (section 8): there only the abscissas are wrong. *)
+Lemma b2z_range b : (0 <= b2z b <= 1)%Z.
+Proof. destruct b; cbn; lia. Qed.
+
+Ltac offset_range_tac :=
+  intros; unfold offset; cbv zeta;
+  repeat match goal with
+  | |- context [b2z ?b] =>
+      let H := fresh "H" in let z := fresh "z" in
+      pose proof (b2z_range b) as H; set (z := b2z b) in *; clearbody z
+  end;
+  try match goal with |- context [(?a =? ?b)%Z] =>
+      let r := eval vm_compute in (a =? b)%Z in change (a =? b)%Z with r end;
+  cbv iota; lia.
+
+(** the selected row always exists: |offset| <= 1 (order 2, 3-row tables), <= 2 (order 4,
+    5-row tables) *)
+Lemma offset_range2 x dx lb ub : (-1 <= offset 2 x dx lb ub <= 1)%Z.
+Proof. offset_range_tac. Qed.
+Lemma offset_range4 x dx lb ub : (-2 <= offset 4 x dx lb ub <= 2)%Z.
+Proof. offset_range_tac. Qed.
+
+Definition value_exact (n : nat) (order : Z) (npts : nat) (coefT posT : list (list Q)) : Prop :=
+  forall (a : list Q) (x dx : Q) (lb ub : bound),
+    ~ dx == 0 -> (length a <= npts)%nat ->
+    exists v, derivQ offset coefT posT n order (pevalQ a) x dx lb ub = Some v /\
+              Q2R v = peval (pderivn n (map Q2R a)) (Q2R x).
+
+Ltac value_exact_tac rows range :=
+  intros a x dx lb ub Hdx Ha;
+  eapply derivQ_exact;
+  [ exact rows
+  | repeat (apply Forall_cons; [reflexivity|]); apply Forall_nil
+  | pose proof (range x dx lb ub);
+    match goal with |- context [Z.of_nat (length ?t)] =>
+      let r := eval vm_compute in (Z.of_nat (length t)) in
+      change (Z.of_nat (length t)) with r end; lia
+  | exact Hdx
+  | exact Ha ].
+
+Lemma value_first2 : value_exact 1 2 2 FIRST_DERIV_COEFF_2 FIRST_DERIV_POS_2.
+Proof. value_exact_tac first2_rows offset_range2. Qed.
+Lemma value_first4 : value_exact 1 4 4 FIRST_DERIV_COEFF_4 FIRST_DERIV_POS_4.
+Proof. value_exact_tac first4_rows offset_range4. Qed.
+Lemma value_second2 : value_exact 2 2 3 SECOND_DERIV_COEFF_2 SECOND_DERIV_POS_2.
+Proof. value_exact_tac second2_rows offset_range2. Qed.
+Lemma value_second4 : value_exact 2 4 5 SECOND_DERIV_COEFF_4 SECOND_DERIV_POS_4.
+Proof. value_exact_tac second4_rows offset_range4. Qed.
+
+Theorem derivative_value_exact :
+  value_exact 1 2 2 FIRST_DERIV_COEFF_2 FIRST_DERIV_POS_2 /\
+  value_exact 1 4 4 FIRST_DERIV_COEFF_4 FIRST_DERIV_POS_4 /\
+  value_exact 2 2 3 SECOND_DERIV_COEFF_2 SECOND_DERIV_POS_2 /\
+  value_exact 2 4 5 SECOND_DERIV_COEFF_4 SECOND_DERIV_POS_4.
+Proof. exact (conj value_first2 (conj value_first4 (conj value_second2 value_second4))). Qed.
+Print Assumptions derivative_value_exact.
+
+(** non-vacuity: a cubic, a negative step, a narrow interval -- the model value IS computed
+    and is the derivative (3 x^2 at x = 1/2 is 3/4) *)
+Example value_exact_instance :
+  match derivQ offset FIRST_DERIV_COEFF_4 FIRST_DERIV_POS_4 1 4 (pevalQ [0; 0; 0; 1]) (1#2)
+               (-(1#3)) (Fin 0) (Fin 1) with
+  | Some v => v == 3#4
+  | None => False
+  end.
+Proof. vm_compute. reflexivity. Qed.
+
+(** ** 7. the whole contract for intervals at least as wide as the stencil: abscissas inside
+       the bounds AND exact value, for one and the same selected row *)
+Definition contract (n : nat) (order : Z) (npts : nat) (K : Q) (coefT posT : list (list Q)) : Prop :=
+  forall (a : list Q) x dx lb ub, 0 < dx -> in_bounds lb ub x -> wide lb ub K dx ->
+    (length a <= npts)%nat ->
+    exists pts v, eval_points offset posT order x dx lb ub = Some pts /\
+                  Forall (in_bounds lb ub) pts /\
+                  derivQ offset coefT posT n order (pevalQ a) x dx lb ub = Some v /\
+                  Q2R v = peval (pderivn n (map Q2R a)) (Q2R x).
+
+Lemma contract_of n order npts K coefT posT :
+  points_ok posT order K -> value_exact n order npts coefT posT -> contract n order npts K coefT posT.
+Proof.
+  intros HP HV a x dx lb ub Hdx Hin Hw Ha.
+  specialize (HP x dx lb ub Hdx Hin Hw).
+  destruct (eval_points offset posT order x dx lb ub) as [pts|]; [|contradiction].
+  assert (Hnz : ~ dx == 0) by (intro E; rewrite E in Hdx; discriminate).
+  destruct (HV a x dx lb ub Hnz Ha) as [v [Hv Ev]].
+  exists pts, v. repeat split; assumption.
+Qed.
+
+Theorem derivative_exact_and_in_bounds :
+  contract 1 2 2 2 FIRST_DERIV_COEFF_2 FIRST_DERIV_POS_2 /\
+  contract 1 4 4 4 FIRST_DERIV_COEFF_4 FIRST_DERIV_POS_4 /\
+  contract 2 2 3 3 SECOND_DERIV_COEFF_2 SECOND_DERIV_POS_2 /\
+  contract 2 4 5 5 SECOND_DERIV_COEFF_4 SECOND_DERIV_POS_4.
+Proof.
+  repeat split.
+  - exact (contract_of _ _ _ _ _ _ points_first2 value_first2).
+  - exact (contract_of _ _ _ _ _ _ points_first4 value_first4).
+  - exact (contract_of _ _ _ _ _ _ points_second2 value_second2).
+  - exact (contract_of _ _ _ _ _ _ points_second4 value_second4).
+Qed.
+Print Assumptions derivative_exact_and_in_bounds.
+
+(** ** 8. intervals NARROWER than the stencil (known finding D5 / narrow-bounds).  Precisely:
+       (a) the value is still exact (section 6, no hypothesis on the bounds);
+       (b) if the interval is narrower than ONE step, some abscissa is outside the bounds
+           for every admissible x, for all four tables;
+       (c) the width K*dx of section 5 is sharp: at width (K - 1/2) dx there is an x whose
+           stencil leaves the interval, for all four tables; and the recorded input
+           (x = 1/2, dx = 1, bounds (0,1), order 2, n = 1) is one such witness. *)
+Definition leaves_if_narrower_than_step (posT : list (list Q)) (order : Z) : Prop :=
+  forall x dx l u, 0 < dx -> l <= x -> x <= u -> u - l < dx ->
+    match eval_points offset posT order x dx (Fin l) (Fin u) with
+    | Some pts => Exists (fun p => ~ in_bounds (Fin l) (Fin u) p) pts
     | None => False
     end.
-Proof.
-  intros T dT HT HdT.
-  pose proof (points_first4 T dT (Fin 0) PosInf HdT) as H.
-  assert (Hin : in_bounds (Fin 0) PosInf T) by (unfold in_bounds; split; [exact HT|exact I]).
-  specialize (H Hin I).
-  destruct (eval_points offset FIRST_DERIV_POS_4 4 T dT (Fin 0) PosInf); [|exact H].
-  eapply Forall_impl; [|exact H]. intros a [Ha _]. exact Ha.
-Qed.
-Print Assumptions temperature_bound.
 
-(** ** 6. without the width hypothesis the claim is FALSE of the faithful model: the two
-       offsets cancel and the central stencil leaves the interval (known finding D5). *)
-Theorem stays_in_bounds_narrow_refuted :
-  exists x dx lb ub, 0 < dx /\ in_bounds lb ub x /\
-    match eval_points offset FIRST_DERIV_POS_2 2 x dx lb ub with
+Ltac exists_out_tac :=
+  first [ apply Exists_cons_hd; unfold in_bounds; intros [? ?]; lra
+        | apply Exists_cons_tl; exists_out_tac ].
+
+Ltac narrow_tac :=
+  intros x dx l u Hdx Hl Hu Hn;
+  unfold eval_points, offset, gt_b, lt_b;
+  cmp_cases;
+  try (exfalso; lra);
+  match goal with
+  | |- context [pyindex ?t ?z] =>
+      let r := eval vm_compute in (pyindex t z) in change (pyindex t z) with r
+  end;
+  cbn [option_map map];
+  exists_out_tac.
+
+Lemma narrow_first2 : leaves_if_narrower_than_step FIRST_DERIV_POS_2 2.
+Proof. narrow_tac. Qed.
+Lemma narrow_second2 : leaves_if_narrower_than_step SECOND_DERIV_POS_2 2.
+Proof. narrow_tac. Qed.
+Lemma narrow_first4 : leaves_if_narrower_than_step FIRST_DERIV_POS_4 4.
+Proof. narrow_tac. Qed.
+Lemma narrow_second4 : leaves_if_narrower_than_step SECOND_DERIV_POS_4 4.
+Proof. narrow_tac. Qed.
+
+Theorem narrow_interval_leaves_bounds :
+  leaves_if_narrower_than_step FIRST_DERIV_POS_2 2 /\
+  leaves_if_narrower_than_step SECOND_DERIV_POS_2 2 /\
+  leaves_if_narrower_than_step FIRST_DERIV_POS_4 4 /\
+  leaves_if_narrower_than_step SECOND_DERIV_POS_4 4.
+Proof. exact (conj narrow_first2 (conj narrow_second2 (conj narrow_first4 narrow_second4))). Qed.
+Print Assumptions narrow_interval_leaves_bounds.
+
+Definition refuted_at (posT : list (list Q)) (order : Z) (K : Q) : Prop :=
+  exists x dx lb ub, 0 < dx /\ in_bounds lb ub x /\ wide lb ub (K - (1#2)) dx /\
+    match eval_points offset posT order x dx lb ub with
     | Some pts => Exists (fun p => ~ in_bounds lb ub p) pts
     | None => True
     end.
+
+Ltac refute_tac K :=
+  exists (3#4), 1, (Fin 0), (Fin (K - (1#2)));
+  split; [reflexivity|]; split; [unfold in_bounds; split; discriminate|];
+  split; [unfold wide; discriminate|];
+  vm_compute;
+  repeat first [ apply Exists_cons_hd; intros [H1 H2];
+                 first [apply H1; reflexivity | apply H2; reflexivity]
+               | apply Exists_cons_tl ].
+
+Theorem stays_in_bounds_narrow_refuted :
+  (* the recorded input of the known finding *)
+  (exists x dx lb ub, x = (1#2) /\ dx = 1 /\ lb = Fin 0 /\ ub = Fin 1 /\
+     0 < dx /\ in_bounds lb ub x /\
+     match eval_points offset FIRST_DERIV_POS_2 2 x dx lb ub with
+     | Some pts => Exists (fun p => ~ in_bounds lb ub p) pts
+     | None => True
+     end) /\
+  (* K is sharp for every table *)
+  refuted_at FIRST_DERIV_POS_2 2 2 /\ refuted_at SECOND_DERIV_POS_2 2 3 /\
+  refuted_at FIRST_DERIV_POS_4 4 4 /\ refuted_at SECOND_DERIV_POS_4 4 5.
 Proof.
-  exists (1#2), 1, (Fin 0), (Fin 1). split; [reflexivity|]. split.
-  - unfold in_bounds; split; discriminate.
-  - vm_compute. apply Exists_cons_hd. intros [H _]. apply H. reflexivity.
+  split.
+  - exists (1#2), 1, (Fin 0), (Fin 1). repeat (split; [reflexivity|]). split.
+    + unfold in_bounds; split; discriminate.
+    + vm_compute. apply Exists_cons_hd. intros [H _]. apply H. reflexivity.
+  - repeat split.
+    + refute_tac 2.
+    + refute_tac 3.
+    + refute_tac 4.
+    + refute_tac 5.
 Qed.
 Print Assumptions stays_in_bounds_narrow_refuted.
+
+(** ** 9. the call sites in EffectivePotential (facts generated from effectivePotential.py).
+       derivT: n, order and bounds are whatever the source passes (or the defaults of
+       helpers.derivative); the theorem is about THOSE values. *)
+Definition posT_of (n : nat) (order : Z) : list (list Q) :=
+  match n, order with
+  | 1%nat, 2%Z => FIRST_DERIV_POS_2 | 1%nat, 4%Z => FIRST_DERIV_POS_4
+  | 2%nat, 2%Z => SECOND_DERIV_POS_2 | 2%nat, 4%Z => SECOND_DERIV_POS_4
+  | _, _ => []
+  end.
+Definition coefT_of (n : nat) (order : Z) : list (list Q) :=
+  match n, order with
+  | 1%nat, 2%Z => FIRST_DERIV_COEFF_2 | 1%nat, 4%Z => FIRST_DERIV_COEFF_4
+  | 2%nat, 2%Z => SECOND_DERIV_COEFF_2 | 2%nat, 4%Z => SECOND_DERIV_COEFF_4
+  | _, _ => []
+  end.
+Definition K_of (n : nat) (order : Z) : Q :=
+  match n, order with
+  | 1%nat, 2%Z => 2 | 1%nat, 4%Z => 4 | 2%nat, 2%Z => 3 | 2%nat, 4%Z => 5 | _, _ => 0
+  end.
+Definition npts_of (n : nat) (order : Z) : nat :=
+  match n, order with
+  | 1%nat, 2%Z => 2 | 1%nat, 4%Z => 4 | 2%nat, 2%Z => 3 | 2%nat, 4%Z => 5 | _, _ => 0
+  end.
+
+Lemma derivT_points : points_ok (posT_of derivT_n derivT_order) derivT_order (K_of derivT_n derivT_order).
+Proof.
+  first [ exact points_first2 | exact points_first4 | exact points_second2 | exact points_second4 ].
+Qed.
+Lemma derivT_value :
+  value_exact derivT_n derivT_order (npts_of derivT_n derivT_order)
+              (coefT_of derivT_n derivT_order) (posT_of derivT_n derivT_order).
+Proof.
+  first [ exact value_first2 | exact value_first4 | exact value_second2 | exact value_second4 ].
+Qed.
+
+(** derivT never evaluates the potential at T < 0, for every admissible T (including T = 0
+    and T within two steps of 0) and every step dT > 0, and returns the exact T-derivative
+    of potentials polynomial in T of degree <= #points - 1. *)
+Theorem derivT_bound :
+  forall (a : list Q) T dT, in_bounds derivT_lb derivT_ub T -> 0 < dT ->
+    (length a <= npts_of derivT_n derivT_order)%nat ->
+    exists pts v,
+      eval_points offset (posT_of derivT_n derivT_order) derivT_order T dT derivT_lb derivT_ub
+        = Some pts /\
+      Forall (fun t => 0 <= t) pts /\
+      derivQ offset (coefT_of derivT_n derivT_order) (posT_of derivT_n derivT_order)
+             derivT_n derivT_order (pevalQ a) T dT derivT_lb derivT_ub = Some v /\
+      Q2R v = peval (pderivn derivT_n (map Q2R a)) (Q2R T).
+Proof.
+  intros a T dT Hin HdT Ha.
+  assert (Hw : wide derivT_lb derivT_ub (K_of derivT_n derivT_order) dT) by exact I.
+  destruct (contract_of _ _ _ _ _ _ derivT_points derivT_value a T dT _ _ HdT Hin Hw Ha)
+    as [pts [v [Hp [Hb [Hv Ev]]]]].
+  exists pts, v. repeat split; try assumption.
+  eapply Forall_impl; [|exact Hb].
+  intros t [Ht _]. unfold derivT_lb in Ht. lra.
+Qed.
+Print Assumptions derivT_bound.
+
+(** the hypotheses of [derivT_bound] are satisfiable at the bound itself *)
+Example derivT_bound_nonvacuous :
+  in_bounds derivT_lb derivT_ub 0 /\ (0 < npts_of derivT_n derivT_order)%nat /\
+  posT_of derivT_n derivT_order <> [].
+Proof.
+  split; [unfold in_bounds, derivT_lb, derivT_ub; split; [discriminate|exact I]|].
+  split; [vm_compute; lia|discriminate].
+Qed.
+
+(** gradient / hessian call sites: the combined array has the fields in slots 0..nf-1 and
+    the temperature in slot nf (both in __combineInputs, which writes every slot of the
+    np.empty buffer, and in __wrapperPotential); the combined scales have the same layout,
+    and the scale of the temperature slot is the one derivT uses; derivField differentiates
+    along the field slots; deriv2FieldT pairs field slots with the temperature slot and
+    drops the length-1 axis; deriv2Field2 is the field-field block; allSecondDerivatives
+    computes the full Hessian and slices field-field, (T, fields) and (T, T).  For every
+    number of fields nf >= 1. *)
+Definition order_ok (o : Z) : Prop := o = 2%Z \/ o = 4%Z.
+
+Lemma nth_slots nf : nth nf (repeat FieldScale nf ++ [TempScale]) FieldScale = TempScale.
+Proof.
+  rewrite app_nth2; rewrite repeat_length; [|lia]. rewrite Nat.sub_diag. reflexivity.
+Qed.
+
+Theorem potential_call_sites : forall nf : nat, (1 <= nf)%nat ->
+  let len := S nf in
+  sel combine_fields len = Some (seq 0 nf) /\ sel combine_T len = Some [nf] /\
+  sel wrapper_fields len = Some (seq 0 nf) /\ sel wrapper_T len = Some [nf] /\
+  scale_slots scales_layout nf = repeat FieldScale nf ++ [TempScale] /\
+  nth nf (scale_slots scales_layout nf) FieldScale = derivT_scale /\
+  axes_sel derivField_axis nf len = Some (seq 0 nf) /\
+  axes_sel deriv2FieldT_x nf len = Some (seq 0 nf) /\
+  axes_sel deriv2FieldT_y nf len = Some [nf] /\
+  sel deriv2FieldT_post 1 = Some [0%nat] /\
+  axes_sel deriv2Field2_x nf len = Some (seq 0 nf) /\
+  axes_sel deriv2Field2_y nf len = Some (seq 0 nf) /\
+  axes_sel allSecond_x nf len = Some (seq 0 len) /\
+  axes_sel allSecond_y nf len = Some (seq 0 len) /\
+  (sel (fst allSecond_hess) len, sel (snd allSecond_hess) len)
+    = (Some (seq 0 nf), Some (seq 0 nf)) /\
+  (sel (fst allSecond_dgraddT) len, sel (snd allSecond_dgraddT) len)
+    = (Some [nf], Some (seq 0 nf)) /\
+  (sel (fst allSecond_d2VdT2) len, sel (snd allSecond_d2VdT2) len)
+    = (Some [nf], Some [nf]) /\
+  order_ok derivT_order /\ order_ok derivField_order /\ order_ok deriv2FieldT_order /\
+  order_ok deriv2Field2_order /\ order_ok allSecond_order.
+Proof.
+  intros nf Hnf len. subst len.
+  assert (Hs : scale_slots scales_layout nf = repeat FieldScale nf ++ [TempScale]).
+  { unfold scale_slots, scales_layout. cbn [flat_map]. rewrite app_nil_r. reflexivity. }
+  unfold combine_fields, combine_T, wrapper_fields, wrapper_T, derivField_axis,
+    deriv2FieldT_x, deriv2FieldT_y, deriv2FieldT_post, deriv2Field2_x, deriv2Field2_y,
+    allSecond_x, allSecond_y, allSecond_hess, allSecond_dgraddT, allSecond_d2VdT2,
+    derivT_scale, order_ok, derivT_order, derivField_order, deriv2FieldT_order,
+    deriv2Field2_order, allSecond_order.
+  cbn [fst snd axes_sel].
+  rewrite ?sel_last, ?sel_upto_last, ?axes_last, ?sel_first, ?pynorm_last, Hs, nth_slots.
+  cbn [option_map].
+  repeat split; try reflexivity; first [left; reflexivity | right; reflexivity].
+Qed.
+Print Assumptions potential_call_sites.
+
+(** the stencils used at those call sites (generated order, generated row numbers) are the
+    ones proved exact in sections 3 and 4 *)
+Theorem potential_stencils_exact :
+  (forall c p, nth_error (coefT_of 1 derivField_order) gradient_row = Some c ->
+               nth_error (posT_of 1 derivField_order) gradient_row = Some p ->
+               row_exact 1 (Z.to_nat derivField_order) c p) /\
+  (allSecond_order = 4%Z -> hess_exact 5 HESSIAN_COEFF_4 HESSIAN_POS_4) /\
+  (allSecond_order = 2%Z -> hess_exact 3 HESSIAN_COEFF_2 HESSIAN_POS_2) /\
+  allSecond_order = deriv2Field2_order /\ allSecond_order = deriv2FieldT_order.
+Proof.
+  split.
+  - destruct gradient_exact as [_ [G2 G4]].
+    first [ exact G4 | exact G2 ].
+  - split; [intros _; exact hess4|]. split; [intros _; exact hess2|].
+    split; reflexivity.
+Qed.
+Print Assumptions potential_stencils_exact.
